@@ -30,6 +30,13 @@ def _canon(v, depth, ids):
             out.append(_canon(v.__defaults__, depth + 1, ids))
             out.append(_canon(v.__kwdefaults__, depth + 1, ids))
         return out
+    ci = getattr(v, "cache_info", None)
+    if callable(ci) and hasattr(v, "__wrapped__"):
+        try:
+            info = ci()
+            return ["lru", getattr(v, "__qualname__", "?"), [info.hits, info.misses, info.currsize]]
+        except Exception:
+            pass
     if isinstance(v, (staticmethod, classmethod)):
         return ["wrapped", _canon(v.__func__, depth + 1, ids)]
     d = getattr(v, "__dict__", None)
@@ -96,17 +103,41 @@ def mk_rating(model, mu, sigma, name, stats=None):
     return r
 
 
-def rebuild(model, snap, prefix, stats=None):
-    return [
+def rebuild(model, snap, prefix, stats=None, ids=None):
+    """Fresh rating objects holding the snapshot values, with other names and ids.  `ids`
+    selects how ids are assigned (results must not depend on them): None = the fresh uuid4s,
+    'same' = every rating carries the same id, 'reversed' = fresh ids re-dealt in descending
+    order."""
+    teams = [
         [mk_rating(model, dec(mu), dec(sg), "%s_%d_%d" % (prefix, i, j), stats) for j, (mu, sg) in enumerate(t)]
         for i, t in enumerate(snap)
     ]
+    if ids == "same":
+        for t in teams:
+            for p in t:
+                p.id = "0" * 32
+    elif ids == "reversed":
+        allp = [p for t in teams for p in t]
+        for p, i in zip(allp, sorted((p.id for p in allp), reverse=True)):
+            p.id = i
+    elif ids == "sorted":
+        allp = [p for t in teams for p in t]
+        for p, i in zip(allp, sorted(p.id for p in allp)):
+            p.id = i
+    return teams
 
 
-def ref_rate(cfg, snap, kw, prefix="iso", tau=None, limit_sigma=None, stats=None):
+def id_mode(snap):
+    """Deterministic (PRNG-free) choice of the id assignment for a reference execution."""
+    from core import h64
+
+    return [None, "same", "reversed", "sorted"][h64(snap) % 4]
+
+
+def ref_rate(cfg, snap, kw, prefix="iso", tau=None, limit_sigma=None, stats=None, lib=None, ids=None):
     """The same rate call on a fresh model and fresh ratings. -> ('ok', enc) | ('exc', name)."""
-    m = build_model(cfg, tau=tau, limit_sigma=limit_sigma)
-    teams = rebuild(m, snap, prefix, stats)
+    m = build_model(cfg, tau=tau, limit_sigma=limit_sigma, lib=lib)
+    teams = rebuild(m, snap, prefix, stats, ids)
     try:
         res = m.rate(teams, **kw)
     except Exception as e:
@@ -114,9 +145,9 @@ def ref_rate(cfg, snap, kw, prefix="iso", tau=None, limit_sigma=None, stats=None
     return ("ok", enc(result_values(res)))
 
 
-def ref_predict(cfg, snap, kind, prefix="iso", stats=None):
-    m = build_model(cfg)
-    teams = rebuild(m, snap, prefix, stats)
+def ref_predict(cfg, snap, kind, prefix="iso", stats=None, lib=None, ids=None):
+    m = build_model(cfg, lib=lib)
+    teams = rebuild(m, snap, prefix, stats, ids)
     try:
         res = do_predict(m, kind, teams)
     except Exception as e:
